@@ -5,6 +5,7 @@ Monitor: after every operation of a sequence (each executed through SqParser.eva
 list / string-keyed dict driven by the same operation.
 """
 import copy
+import enum
 import itertools
 import random
 from decimal import Decimal
@@ -31,11 +32,28 @@ IDX = ['0', '1', '2', '-1', '-2', '1.5', '-1.5', '0.9', '-0.9', '2.0', '7', '-7'
 VALS = ['0', '5', '"s"', '[1]', 'None', '{"k": 0}']
 KEYS = ['1', '1.0', '007', '-1', '"1"', '"a"', 'True', 'None', '2.50', '"True"', '0',
         # numbers whose text form carries an exponent (str(Decimal) is the documented key): tiny literals, computed powers
-        '0.0000001', '10 ** 30', '0.00000025']
+        '0.0000001', '10 ** 30', '0.00000025',
+        # keys supplied by the host as values: str subclasses with a text form of their own, binary floats, wide ints, decimals in exponent form
+        'hk', 'hk2', 'hk3', 'hk4', 'hk5']
+
+
+class Color(str, enum.Enum):
+    """a host key that is a str with a text form of its own: str(Color.RED) is not its str value"""
+    RED = 'red'
+
+
+class Tag(str):
+    def __str__(self):
+        return 'tag:' + str.__str__(self)
+
+
+HOST_KEYS = {'hk': Color.RED, 'hk2': Tag('a'), 'hk3': 1.5, 'hk4': 10 ** 30, 'hk5': D('1E+2')}
 
 
 def lit_value(text):
     """python value of a literal text as the language reads it"""
+    if text in HOST_KEYS:
+        return HOST_KEYS[text]
     if text == 'None':
         return None
     if text == 'True':
@@ -328,7 +346,7 @@ def run_case(case, ctx):
         seq = case[2]
     ctx.P = ctx.P1 if (hash(repr(case)) & 1) else ctx.P0
     ctx.count('cases_on_caching_parser' if ctx.P is ctx.P1 else 'cases_on_plain_parser')
-    names = {'l': copy.deepcopy(l0), 'd': copy.deepcopy(d0)}
+    names = {'l': copy.deepcopy(l0), 'd': copy.deepcopy(d0), **HOST_KEYS}
     if case[0] == 'ddseq':
         import collections
         names['d'] = collections.defaultdict(lambda: 'made-by-__missing__', copy.deepcopy(d0))
